@@ -904,10 +904,32 @@ func genCMethod(r *RNG, idx int) *cMethod {
 			fmt.Fprintf(&b, "  int v%d = GET_%s_ARG(%d);\n", i, k.k, i)
 			m.ArgLits = append(m.ArgLits, k.lit)
 		}
+		// the guards of the optional arguments: ascending, descending, or as one
+		// if / else-if chain from the highest count down
+		var guards []string
 		for i := req + 1; i <= req+opt; i++ {
 			k := Pick(r, kinds)
-			fmt.Fprintf(&b, "  if (argc >= %d) {\n    int v%d = GET_%s_ARG(%d);\n  }\n", i, i, k.k, i)
+			guards = append(guards, fmt.Sprintf("(argc >= %d) {\n    int v%d = GET_%s_ARG(%d);\n  }", i, i, k.k, i))
 			m.ArgLits = append(m.ArgLits, k.lit)
+		}
+		switch order := r.Intn(3); {
+		case order == 0 || len(guards) < 2:
+			for _, g := range guards {
+				b.WriteString("  if " + g + "\n")
+			}
+		case order == 1:
+			for i := len(guards) - 1; i >= 0; i-- {
+				b.WriteString("  if " + guards[i] + "\n")
+			}
+		default:
+			for i := len(guards) - 1; i >= 0; i-- {
+				if i == len(guards)-1 {
+					b.WriteString("  if " + guards[i])
+				} else {
+					b.WriteString(" else if " + guards[i])
+				}
+			}
+			b.WriteString("\n")
 		}
 		m.Min, m.Max = req, req+opt
 		m.Source = fmt.Sprintf("static void %s(mrbc_vm *vm, mrbc_value v[], int argc)\n{\n%s  SET_NIL_RETURN();\n}\n", fn, b.String())
@@ -1078,7 +1100,7 @@ func init() {
 			return judgeC(c, s, &cc)
 		},
 		Run: func(c *CheckCtx) {
-			c.rule = "generated C sources defining 3-8 methods of one class through mrb_define_method / mrb_define_class_method / mrb_define_method_id / mrbc_define_method / mrbc_define_class_method, with an MRB_ARGS spec only (REQ/OPT/REST/POST/BLOCK/NONE/ANY), with an mrb_get_args format (argument letters, |, *, &, !, ?) or with GET_*_ARG(n) / `if (argc >= n)` patterns; ti-c2json converts each source 3 times (byte equality); ti - loaded with the shipped configuration plus the emitted class - checks calls with 0..6 arguments of fitting types, which must be accepted exactly when the generator's model of the C definition accepts that count. distinct_nontrivial = distinct C sources"
+			c.rule = "generated C sources defining 3-8 methods of one class through mrb_define_method / mrb_define_class_method / mrb_define_method_id / mrbc_define_method / mrbc_define_class_method, with an MRB_ARGS spec only (REQ/OPT/REST/POST/BLOCK/NONE/ANY), with an mrb_get_args format (argument letters, |, *, &, !, ?) or with GET_*_ARG(n) / `if (argc >= n)` patterns (guards ascending, descending, or one else-if chain); ti-c2json converts each source 3 times (byte equality); ti - loaded with the shipped configuration plus the emitted class - checks calls with 0..6 arguments of fitting types, which must be accepted exactly when the generator's model of the C definition accepts that count. distinct_nontrivial = distinct C sources"
 			c.assumptions = []string{"model of the C side: aspec-only definitions accept REQ+POST .. REQ+OPT+POST (unbounded with REST, any count for ANY, none for NONE); with mrb_get_args the format decides (letters before | required, after | optional, * unbounded; & ! ? consume no argument); GET_*_ARG(n) read unconditionally are required, those under `if (argc >= n)` optional", "a class method `new` is added in a separate configuration file so that instance methods can be called"}
 			r := c.RNG.Sub(26)
 			n := c.N(90, 2500)
